@@ -1,0 +1,76 @@
+//go:build verif
+
+// Verification accessors for the /verif runtime-monitoring harness (domain
+// vtlscodec, property C43, record-layer family). Compiled only with
+// -tags verif. Add-only: nothing here is referenced by production code.
+//
+
+package bfe_tls
+
+// VerifCBCSuite describes one entry of the cipherSuites table whose record
+// cipher is a CBC block mode (the only ciphers whose records carry padding).
+type VerifCBCSuite struct {
+	ID        uint16
+	KeyLen    int
+	MacLen    int // length of the MAC key
+	IVLen     int
+	BlockSize int
+	MacSize   int // length of the MAC appended to a record
+}
+
+// VerifCBCSuites enumerates the CBC entries of the real cipherSuites table,
+// in table order, by constructing each suite's read cipher exactly as
+// establishKeys does and testing it for the cbcMode interface that
+// halfConn.decrypt switches on.
+func VerifCBCSuites() []VerifCBCSuite {
+	var out []VerifCBCSuite
+	for _, s := range cipherSuites {
+		if s.cipher == nil || s.mac == nil {
+			continue
+		}
+		c, ok := s.cipher(make([]byte, s.keyLen), make([]byte, s.ivLen), true).(cbcMode)
+		if !ok {
+			continue
+		}
+		out = append(out, VerifCBCSuite{
+			ID: s.id, KeyLen: s.keyLen, MacLen: s.macLen, IVLen: s.ivLen,
+			BlockSize: c.BlockSize(),
+			MacSize:   s.mac(VersionTLS10, make([]byte, s.macLen)).Size(),
+		})
+	}
+	return out
+}
+
+// VerifRecordDecrypt builds the read half of a record layer for cipher suite
+// suiteID at protocol version `version` from the given key material, the way
+// establishKeys + readRecord(changeCipherSpec) do (suite.cipher(key, iv, true),
+// suite.mac(version, macKey), prepareCipherSpec, changeCipherSpec), sets the
+// sequence number to seq, and runs the real halfConn.decrypt on record
+// (5-byte record header followed by the ciphertext; decrypted in place).
+//
+// found is false when the table has no such suite (or it has no cipher/MAC).
+// data is the block's data after decrypt (header, explicit IV, plaintext);
+// the application payload is data[prefixLen:] when ok. alertValue is the
+// alert decrypt returned; seqAfter the sequence number afterwards.
+func VerifRecordDecrypt(suiteID, version uint16, key, iv, macKey []byte, seq [8]byte, record []byte) (
+	found, ok bool, prefixLen int, alertValue uint8, data []byte, seqAfter [8]byte) {
+	var suite *cipherSuite
+	for _, s := range cipherSuites {
+		if s.id == suiteID {
+			suite = s
+			break
+		}
+	}
+	if suite == nil || suite.cipher == nil || suite.mac == nil {
+		return
+	}
+	hc := &halfConn{}
+	hc.prepareCipherSpec(version, suite.cipher(key, iv, true), suite.mac(version, macKey))
+	if err := hc.changeCipherSpec(); err != nil {
+		return
+	}
+	hc.seq = seq
+	b := &block{data: record}
+	dok, n, al := hc.decrypt(b)
+	return true, dok, n, uint8(al), b.data, hc.seq
+}
